@@ -179,6 +179,21 @@ impl TestEnv {
     }
 }
 
+impl TestEnv {
+    /// Closes the environment synchronously (so the same path can be opened again in this process).
+    pub fn close(self) {
+        let me = std::mem::ManuallyDrop::new(self);
+        // safety: `me` is never dropped, each field is moved out exactly once
+        let env = unsafe { std::ptr::read(&me.env) };
+        let dir = unsafe { std::ptr::read(&me.dir) };
+        let keep = me.keep;
+        env.prepare_for_closing().wait();
+        if !keep {
+            let _ = std::fs::remove_dir_all(&dir);
+        }
+    }
+}
+
 impl Drop for TestEnv {
     fn drop(&mut self) {
         if !self.keep {
@@ -274,4 +289,95 @@ pub fn hash_str(s: &str) -> u64 {
         h = h.wrapping_mul(0x100000001b3);
     }
     h
+}
+
+// ------------------------------------------------------------------------------------------------
+// RNG-draw budget: arroy's build takes the caller's RNG (and derives per-tree RNGs of the same type
+// with seed_from_u64), so an endless loop that does not poll the cancel callback but keeps drawing
+// random samples (centroid search, random splits) is detected deterministically, without a clock.
+
+pub struct RngBudget {
+    pub draws: AtomicU64,
+    pub limit: u64,
+}
+
+thread_local! {
+    static RNG_BUDGET: RefCell<Option<Arc<RngBudget>>> = const { RefCell::new(None) };
+}
+
+pub const RNG_BUDGET_PANIC: &str = "verif: rng draw budget exceeded";
+
+pub fn set_rng_budget(b: Option<Arc<RngBudget>>) {
+    RNG_BUDGET.with(|x| *x.borrow_mut() = b);
+}
+
+pub struct CountingRng {
+    inner: rand::rngs::StdRng,
+    budget: Option<Arc<RngBudget>>,
+}
+
+impl CountingRng {
+    #[inline]
+    fn tick(&self) {
+        if let Some(b) = &self.budget {
+            if b.draws.fetch_add(1, Ordering::Relaxed) > b.limit {
+                panic!("{}", RNG_BUDGET_PANIC);
+            }
+        }
+    }
+}
+
+impl rand::RngCore for CountingRng {
+    fn next_u32(&mut self) -> u32 {
+        self.tick();
+        self.inner.next_u32()
+    }
+    fn next_u64(&mut self) -> u64 {
+        self.tick();
+        self.inner.next_u64()
+    }
+    fn fill_bytes(&mut self, dest: &mut [u8]) {
+        self.tick();
+        self.inner.fill_bytes(dest)
+    }
+    fn try_fill_bytes(&mut self, dest: &mut [u8]) -> Result<(), rand::Error> {
+        self.tick();
+        self.inner.try_fill_bytes(dest)
+    }
+}
+
+impl rand::SeedableRng for CountingRng {
+    type Seed = <rand::rngs::StdRng as rand::SeedableRng>::Seed;
+    fn from_seed(seed: Self::Seed) -> Self {
+        CountingRng { inner: rand::rngs::StdRng::from_seed(seed), budget: RNG_BUDGET.with(|x| x.borrow().clone()) }
+    }
+    fn seed_from_u64(state: u64) -> Self {
+        CountingRng { inner: rand::rngs::StdRng::seed_from_u64(state), budget: RNG_BUDGET.with(|x| x.borrow().clone()) }
+    }
+}
+
+/// Like in_pool, with an RNG-draw budget installed on every thread of the (exclusive) pool.
+pub fn in_pool_budgeted<T: Send>(threads: usize, budget: Arc<RngBudget>, f: impl FnOnce() -> T + Send) -> T {
+    let p = {
+        let popped = pool_store().lock().unwrap().entry(threads).or_default().pop();
+        match popped {
+            Some(p) => p,
+            None => Arc::new(
+                rayon::ThreadPoolBuilder::new()
+                    .num_threads(threads.max(1))
+                    .thread_name(|i| format!("arroy-pool-{i}"))
+                    .build()
+                    .expect("build rayon pool"),
+            ),
+        }
+    };
+    let b2 = budget.clone();
+    p.broadcast(move |_| set_rng_budget(Some(b2.clone())));
+    let r = catch_unwind(AssertUnwindSafe(|| p.install(f)));
+    p.broadcast(|_| set_rng_budget(None));
+    pool_store().lock().unwrap().entry(threads).or_default().push(p);
+    match r {
+        Ok(v) => v,
+        Err(e) => std::panic::resume_unwind(e),
+    }
 }
